@@ -380,6 +380,20 @@ pub fn run(data: &[u8], ctx: &mut Ctx) -> Outcome {
         check!(ctx, before_a.is_ok() && after_a == before_a, "predicate-obscured", &key, "attachments() before obscuring the predicate: {:?}; after: {:?}", before_a.as_ref().map(|x| x.len()), after_a.as_ref().map(|x| x.len()));
         let after_t: BTreeSet<D32> = nopanic!(ctx, hidden.types(), "predicate-obscured", &key).iter().map(|x| d32(&x.digest())).collect();
         check!(ctx, after_t == type_digests, "predicate-obscured", &key, "types() reports {} types after the predicate was obscured, {} were added", after_t.len(), type_digests.len());
+        // the type OBJECT obscured (not the predicate): the envelope still has that type
+        if let Some(v) = added_known.first() {
+            let kv = KnownValue::new(*v);
+            let td = M::Known(*v).digest();
+            // (not when that digest also belongs to an element of the base envelope or of a payload)
+            if !bm.elements().iter().any(|x| x.digest() == td) && !atts.iter().any(|a| bridge::read_out(&a.payload).map(|pm| pm.elements().iter().any(|x| x.digest() == td)).unwrap_or(true)) {
+                let h2 = nopanic!(ctx, both_before.elide_removing_target_with_action(&Envelope::new(kv.clone()), &action), "predicate-obscured", "C19/type-object-obscured");
+                check!(ctx, h2.digest() == both_before.digest(), "predicate-obscured", "C19/type-object-obscured", "obscuring a type object changed the digest");
+                check!(ctx, h2.has_type(&kv) && h2.check_type(&kv).is_ok() && h2.has_type_envelope(kv.clone()), "predicate-obscured", "C19/type-object-obscured", "after the object of the 'isA' assertion for type '{}' was obscured (no digest changed) the envelope no longer has that type", v);
+                let tset: BTreeSet<D32> = h2.types().iter().map(|x| d32(&x.digest())).collect();
+                check!(ctx, tset == type_digests, "predicate-obscured", "C19/type-object-obscured", "types() changed after a type object was obscured");
+                ctx.class("type-object-obscured");
+            }
+        }
         for a in &atts {
             let r = nopanic!(ctx, hidden.attachments_with_vendor_and_conforms_to(Some(a.vendor), a.conforms).map(|v| v.iter().map(|x| d32(&x.digest())).collect::<BTreeSet<D32>>()).map_err(|x| x.to_string()), "predicate-obscured", &key);
             check!(ctx, matches!(&r, Ok(set) if set.contains(&a.digest)), "predicate-obscured", &key, "the attachment (vendor {:?}, conformsTo {:?}) is no longer found by its own vendor and conformsTo: {:?}", a.vendor, a.conforms, r.as_ref().map(|x| x.len()));
